@@ -98,3 +98,28 @@ Example C10_spec_example :
           {| sf_w := 2; sf_h := 1; sf_x := 1; sf_y := 2; sf_delay_num := 1; sf_delay_den := 10; sf_dispose := 1; sf_blend := 0;
              sf_default := false; sf_data := [9; 8; 7] |}].
 Proof. vm_compute. reflexivity. Qed.
+
+(* ================================================================ a kept animation: header untouched, every frame the same picture *)
+From OxiVerif Require Import Spec.Adam7 Spec.Sem Proofs.ContainerOk Proofs.ApngHeader.
+
+(* "the same colour type, bit depth and interlacing": the PngData that is serialised has exactly the header of the parsed input
+   (palette / colour key included), because the pre-processing switches every reduction class off for an animation *)
+Theorem C10_header_untouched : forall e o p p', has_chunk name_acTL (aux_chunks p) = true ->
+  optimize_png_data e p o = Ok p' -> hdr (raw p') = hdr (raw p).
+Proof. exact animation_header_untouched. Qed.
+Print Assumptions C10_header_untouched.
+
+(* "every frame decodes to the same pixels": under that one header, frame by frame, fields identical and pictures equal
+   (alpha-equivalent under alpha optimisation); zlib oracle, sizes within usize *)
+Theorem C10_animation_frames_pixels : forall e o p p', has_chunk name_acTL (aux_chunks p) = true ->
+  optimize_png_data e p o = Ok p' ->
+  forall inflate : list Z -> option (list Z),
+  (forall x n y, z_inflate e x n = Ok y -> inflate x = Some y /\ bytes_ok y) ->
+  (forall d s, inflate (z_deflate e d s) = Some s) ->
+  wf_ctype (ctype (hdr (raw p))) (depth (hdr (raw p))) ->
+  Forall (fun fr => spec_raw_size (f_width fr) (f_height fr) (bpp (hdr (raw p))) (interlaced (hdr (raw p))) true <= usize_max) (frames p) ->
+  Forall2 (fun a b => same_frame_fields a b /\
+                      frame_same (optimize_alpha o) (frame_picture inflate (hdr (raw p)) a) (frame_picture inflate (hdr (raw p)) b))
+          (frames p) (frames p').
+Proof. exact animation_frames_pixels. Qed.
+Print Assumptions C10_animation_frames_pixels.
